@@ -4,7 +4,7 @@ import re
 from vlib import Infra
 
 
-def run_focus(ctx, focus, emit_cfgs, reach=(), driver_env=None, rule="", extra_mc=()):
+def run_focus(ctx, focus, emit_cfgs, reach=(), driver_env=None, rule="", extra_mc=(), extra_drivers=()):
     """emit_cfgs: list of (cfg, stride_quick, stride_thorough): each is model-checked (leg M: operational pipeline satisfies
     the declarative relations on every recipe) and its recipes are emitted (leg R)."""
     q = ctx.quick
@@ -27,6 +27,20 @@ def run_focus(ctx, focus, emit_cfgs, reach=(), driver_env=None, rule="", extra_m
             raise Infra("proxy driver printed no summary:\n" + out[-2000:])
         ctx.traces += int(m.group(1))
         traces.append((trace, cfg))
+    for test, env in extra_drivers:
+        trace = os.path.join(ctx.scratch, "trace_%s.ndjson" % test)
+        e = {"VERIF_TRACE": trace}
+        e.update(env)
+        rc, out = ctx.run_driver(test, env=e, timeout=1200, allow_fail=True)
+        if rc != 0:
+            crash_or_infra(ctx, focus, out)
+            return
+        m = re.search(r"VF cases=(\d+) events=(\d+)", out)
+        if not m:
+            raise Infra("%s printed no summary:\n%s" % (test, out[-2000:]))
+        ctx.traces += int(m.group(1))
+        ctx.extra.setdefault("extra_drivers", {})[test] = {"cases": int(m.group(1)), "events": int(m.group(2))}
+        traces.append((trace, test))
     for r in reach:
         ctx.model_check("MC_Proxy", "MC_Proxy_%s.cfg" % r, expect_violation=r)
     for cfg in extra_mc:
